@@ -104,4 +104,9 @@ func c13EndToEnd(ctx *core.Ctx, res *core.Result) {
 	}
 }
 
-func init() { c13Extra = c13EndToEnd }
+func init() {
+	c13Extra = func(ctx *core.Ctx, res *core.Result) {
+		c13EndToEnd(ctx, res)
+		c13Housekeeping(ctx, res)
+	}
+}
